@@ -50,7 +50,7 @@ def countSet (ms : List (Bytes × Value)) (members : List (Bytes × Ty)) : Nat :
   (members.filter (fun m => (Value.lookup ms m.1).isSome)).length
 
 /-- visit a list of keyed values with an element encoder; an entry whose key is excluded is
-marshalled all the same (into the no-op writer, so its errors still surface) but not emitted -/
+handed to the encoder all the same (the caller passes `encodeNoop` for such keys) but not emitted -/
 def encodeKeyed (excluded : Bytes → Bool) (enc : Bytes → Value → Except EncErr Doc) :
     List (Bytes × Value) → Except EncErr (List (Bytes × Doc))
   | [] => .ok []
@@ -86,6 +86,18 @@ def encodeTyped (excluded : Bytes → Bool) (enc : Bytes → Ty → Value → Ex
     let more ← encodeTyped excluded enc rest
     if excluded k then pure more else pure ((k, d) :: more)
 
+/-- marshalling into the no-op writer (what `keyWriter` returns for an excluded key): its
+`WriteMap` / `WriteArray` return without running their callbacks, so nothing nested is visited
+and the only failure that still surfaces is the one a value raises before touching the writer —
+an undeclared enum constant. The document returned is a placeholder that is never emitted. -/
+def encodeNoop (env : Env) (ty : Ty) (v : Value) : Except EncErr Doc :=
+  match ty, v with
+  | .ref n, .enum k =>
+    (match env.find n with
+    | some (.enum syms) => if 1 ≤ k ∧ k ≤ syms.length then .ok (.obj []) else .error .enum
+    | _ => .ok (.obj []))
+  | _, _ => .ok (.obj [])
+
 /-- `MarshalRestLi` of a value of type `ty` under writer scope `scope`; `fuel` bounds the nesting
 depth only -/
 def encode (c : EncCfg) : Nat → List Bytes → Ty → Value → Except EncErr Doc
@@ -98,7 +110,8 @@ def encode (c : EncCfg) : Nat → List Bytes → Ty → Value → Except EncErr 
       pure (.arr items)
     | .map t, .map es => do
       let kvs ← encodeKeyed (fun k => c.excl.matchesB (scope ++ [k]))
-        (fun k v => encode c fuel (scope ++ [k]) t v) es
+        (fun k v => if c.excl.matchesB (scope ++ [k]) then encodeNoop c.env t v
+          else encode c fuel (scope ++ [k]) t v) es
       pure (c.finish kvs)
     | .ref n, v =>
       match c.env.find n, v with
@@ -115,7 +128,8 @@ def encode (c : EncCfg) : Nat → List Bytes → Ty → Value → Except EncErr 
         | none => .error .illTyped       -- a required Go field always holds a value
         | some triples => do
           let kvs ← encodeTyped (fun k => c.excl.matchesB (scope ++ [k]))
-            (fun k t v => encode c fuel (scope ++ [k]) t v) triples
+            (fun k t v => if c.excl.matchesB (scope ++ [k]) then encodeNoop c.env t v
+              else encode c fuel (scope ++ [k]) t v) triples
           pure (c.finish kvs)
       | some (.union hasNull members), .union ms =>
         -- `validateAllMembers`: the members are visited in declaration order; a second set
@@ -124,7 +138,8 @@ def encode (c : EncCfg) : Nat → List Bytes → Ty → Value → Except EncErr 
         else if countSet ms members = 0 && !hasNull then .error .union
         else do
           let kvs ← encodeTyped (fun k => c.excl.matchesB (scope ++ [k]))
-            (fun k t v => encode c fuel (scope ++ [k]) t v) (setMembers members ms)
+            (fun k t v => if c.excl.matchesB (scope ++ [k]) then encodeNoop c.env t v
+              else encode c fuel (scope ++ [k]) t v) (setMembers members ms)
           pure (c.finish kvs)
       | _, _ => .error .illTyped
     | _, _ => .error .illTyped
